@@ -59,7 +59,25 @@ int main(void)
 				// decode it back and compare block count / sizes
 				lzma_index *back = NULL; uint64_t ml = UINT64_MAX; size_t ip = 0;
 				lzma_ret r2 = lzma_index_buffer_decode(&back, &ml, NULL, buf, &ip, pos);
-				printf(":%d:%" PRIu64 ":%" PRIu64 " ", (int)r2, back ? lzma_index_block_count(back) : 0, back ? lzma_index_uncompressed_size(back) : 0);
+				printf(":%d:%" PRIu64 ":%" PRIu64, (int)r2, back ? lzma_index_block_count(back) : 0, back ? lzma_index_uncompressed_size(back) : 0);
+				// the same bytes through the multi-call decoder, 1 and 3 bytes per call: must give the same Index
+				for (size_t chunk = 1; chunk <= 3 && r == LZMA_OK; chunk += 2) {
+					lzma_stream ds = LZMA_STREAM_INIT; lzma_index *si = NULL; lzma_ret r3 = lzma_index_decoder(&ds, &si, UINT64_MAX);
+					size_t fed = 0; unsigned guard = 0;
+					while (r3 == LZMA_OK && guard++ < 10000000) {
+						size_t l = pos - fed < chunk ? pos - fed : chunk;
+						ds.next_in = buf + fed; ds.avail_in = l; r3 = lzma_code(&ds, LZMA_RUN); fed += l - ds.avail_in;
+						if (r3 == LZMA_OK && fed == pos && l == 0) { r3 = lzma_code(&ds, LZMA_RUN); break; }
+					}
+					int same = (r2 == LZMA_OK) ? (r3 == LZMA_STREAM_END && si != NULL && back != NULL
+							&& lzma_index_block_count(si) == lzma_index_block_count(back)
+							&& lzma_index_uncompressed_size(si) == lzma_index_uncompressed_size(back)
+							&& lzma_index_file_size(si) == lzma_index_file_size(back))
+						: (r3 != LZMA_STREAM_END);
+					if (!same) printf(":MULTICALL-DECODER-DIFFERS(chunk=%zu,ret=%d,index=%s)", chunk, (int)r3, si ? "yes" : "NULL");
+					lzma_end(&ds); if (r3 == LZMA_STREAM_END) lzma_index_end(si, NULL);
+				}
+				printf(" ");
 				lzma_index_end(back, NULL); free(buf); break; }
 			case 'z': lzma_index_end(ix[k], NULL); ix[k] = NULL; printf("ok "); break;
 			default: printf("ERR ");
